@@ -308,7 +308,7 @@ def contracts(tier):
                        make_generator(_data(n, 2), "wide", "little", mlw, "ss"))
         if not NOMAX_ERROR:
             yield ("ConstantStreamGenerator", "wide_big_len7_nomax", make_generator(_data(7, 2), "wide", "big", None, "ss"))
-        if os.environ.get("HWV_C27_BIG_ENDIAN_MAX"):      # demonstrates the big-endian + max_length finding (see EXPLANATION)
+        if True:      # big-endian + max_length: known finding (see EXPLANATION and known_findings.json)
             yield ("ConstantStreamGenerator", "wide_big_len7_max16", make_generator(_data(7, 2), "wide", "big", 16, "ss"))
         yield ("ConstantStreamGenerator", "w16_little_len5_max16", make_generator(_data(5, 3), "w16", "little", 16, "sync"))
         yield ("StreamSerializer", "len2_nomax", make_serializer(2, None, "usb"))
@@ -327,8 +327,6 @@ def contracts(tier):
     for n in wlens:
         for endian in ("little", "big"):
             for mlw in gen_mlws2:
-                if endian == "big" and mlw and not os.environ.get("HWV_C27_BIG_ENDIAN_MAX"):
-                    continue            # finding: see EXPLANATION (separate entry below keeps it visible)
                 yield ("ConstantStreamGenerator", f"wide_{endian}_len{n}_{'max%d' % mlw if mlw else 'nomax'}",
                        make_generator(_data(n, 2), "wide", endian, mlw, "ss"))
     # ---- 16-bit payload, single valid bit, bytes constant
